@@ -40,8 +40,32 @@ def labels(draw, n, kind=None, order=None, kinds="ifs"):
 
 
 @st.composite
+def history(draw, labs_per_dim):
+    """how the array came about (see core.build): a history must not change any answer"""
+    mode = draw(st.sampled_from(["none", "none", "none", "warm", "slice", "relabel", "transposed"]))
+    h = {"mode": mode}
+    if mode == "slice":
+        front, back = [], []
+        for labs in labs_per_dim:
+            kind = "s" if any(isinstance(x, str) for x in labs) else ("f" if any(isinstance(x, float) for x in labs) else "i")
+            nf, nb = draw(st.integers(0, 2)), draw(st.integers(0, 2))
+            if kind == "s":
+                extra = ["zq%d" % i for i in range(nf + nb)]
+            else:
+                hi = max(labs) if labs else 0
+                lo = min(labs) if labs else 0
+                extra = [(hi + 30 + 2 * i) if i % 2 == 0 else (lo - 30 - 2 * i) for i in range(nf + nb)]
+                if kind == "f":
+                    extra = [float(x) for x in extra]
+            front.append(extra[:nf])
+            back.append(extra[nf:])
+        h["front"], h["back"] = front, back
+    return h
+
+
+@st.composite
 def array_spec(draw, min_dims=0, max_dims=4, min_size=0, max_size=4, kinds="ifs", vks="fi", nan=False,
-               names=None, dims=None, square=False):
+               names=None, dims=None, square=False, hist=True):
     """description of a DimArray (see core.build)"""
     names = names or NAMES
     if dims is None:
@@ -62,6 +86,8 @@ def array_spec(draw, min_dims=0, max_dims=4, min_size=0, max_size=4, kinds="ifs"
                 spec["nan"] = draw(st.lists(st.integers(0, ncell - 1), min_size=1, max_size=max(1, ncell // 2), unique=True))
             elif mode == "all":
                 spec["nan"] = list(range(ncell))
+    if hist:
+        spec["hist"] = draw(history(labs))
     return spec
 
 
@@ -201,6 +227,7 @@ def array_over_pool(draw, pool, min_dims=0, max_dims=3, vks="fi", allow_empty=Fa
             n *= len(l)
         if n and draw(st.booleans()):
             spec["nan"] = draw(st.lists(st.integers(0, n - 1), min_size=1, max_size=max(1, n // 2), unique=True))
+    spec["hist"] = draw(history(labs))
     return spec
 
 
@@ -218,5 +245,5 @@ def dataset_over_pool(draw, pool, min_vars=1, max_vars=3, max_dims=3, allow_empt
         k = draw(st.integers(0, len(dsdims)))
         vd = list(draw(st.permutations(dsdims)))[:k]
         out.append([vnames[i], {"dims": vd, "labels": [dlabels[d] for d in vd], "vk": draw(st.sampled_from(list(vks))),
-                                "base": draw(st.integers(0, 40))}])
+                                "base": draw(st.integers(0, 40)), "hist": draw(history([dlabels[d] for d in vd]))}])
     return {"vars": out}
